@@ -424,7 +424,10 @@ def r6(ctx):
     ok = False
     if xn is not None and isinstance(xn, ast.BinOp) and isinstance(xn.op, ast.Div):
         X = U(xn.left)
-        ok = N.key(xn.right) == N.key(parse_expr(f"np.sqrt(np.sum(np.square({X}), axis=1, keepdims=True))"))
+        right = inline(xn.right, {k: v for k, v in env.items() if k != X})
+        forms = [f"np.sqrt(np.sum(np.square({X}), axis=1, keepdims=True))", f"np.sqrt(np.sum({X} ** 2, axis=1, keepdims=True))",
+                 f"np.sqrt(np.sum({X} * {X}, axis=1, keepdims=True))", f"np.linalg.norm({X}, axis=1, keepdims=True)"]
+        ok = N.key(right) in {N.key(parse_expr(t)) for t in forms}
     ctx.check("R6", f"{f.site()}::rows-normalised", ok, "each row is divided by its Euclidean norm (unit diagonal)",
               f"the einsum operand `{U(xn) if xn is not None else None}` is not row-normalised by sqrt(sum(X^2, axis=1, keepdims=True))")
     g = ctx.fn("models.main.generate_full_combinatoric_space")
